@@ -17,6 +17,8 @@ mod verif_drawing {
     /// Coordinate window [LO, HI]: three pixels beyond the image on every side.
     const LO: i32 = -3;
     const HI: i32 = 7;
+    /// Largest rect side in the windowed rect harnesses.
+    const MAX_SIDE: i32 = 6;
 
     // ------------------------------------------------------------------ generators
 
@@ -24,13 +26,6 @@ mod verif_drawing {
     fn any_coord() -> i32 {
         let v: i8 = kani::any();
         kani::assume(v >= LO as i8 && v <= HI as i8);
-        v as i32
-    }
-
-    /// Symbolic coordinate in [0, N] (an in-image rect edge).
-    fn any_edge_in_image() -> i32 {
-        let v: u8 = kani::any();
-        kani::assume(v as usize <= N);
         v as i32
     }
 
@@ -87,14 +82,14 @@ mod verif_drawing {
     /// Rect inside the image (edges in [0, N], possibly inverted / empty):
     /// only pixels inside the rect change.
     #[kani::proof]
-    #[kani::unwind(6)]
+    #[kani::unwind(5)]
     pub fn fill_rect_in_image() {
         let (old, mut img) = any_image::<N, N>();
         let (t, l, b, r) = (
-            any_edge_in_image(),
-            any_edge_in_image(),
-            any_edge_in_image(),
-            any_edge_in_image(),
+            any_edge_in::<N>(),
+            any_edge_in::<N>(),
+            any_edge_in::<N>(),
+            any_edge_in::<N>(),
         );
         let v: u8 = kani::any();
         fill_rect(img.view_mut(), Rect::from_tlbr(t, l, b, r), v);
@@ -110,10 +105,13 @@ mod verif_drawing {
     /// Any rect with coordinates in [LO, HI] (partly or wholly outside the image, inverted,
     /// empty): no panic, and only pixels inside image /\ rect change.
     #[kani::proof]
-    #[kani::unwind(12)]
+    #[kani::unwind(8)]
     pub fn fill_rect_any_rect() {
         let (old, mut img) = any_image::<N, N>();
         let (t, l, b, r) = (any_coord(), any_coord(), any_coord(), any_coord());
+        // Side lengths <= MAX_SIDE (two more than the image: the rect can overhang on both
+        // sides at once); keeps the loop unwinding small.
+        kani::assume(b - t <= MAX_SIDE && r - l <= MAX_SIDE);
         let v: u8 = kani::any();
         fill_rect(img.view_mut(), Rect::from_tlbr(t, l, b, r), v);
         let (y, x) = any_px::<N, N>();
@@ -122,6 +120,10 @@ mod verif_drawing {
         }
         kani::cover!(changed(&old, &img, y, x), "some pixel is changed");
         kani::cover!(b < t || r < l, "inverted rect reaches the end");
+        kani::cover!(
+            t < 0 && b - t == MAX_SIDE && l > 0 && r > N as i32 && changed(&old, &img, y, x),
+            "rect overhanging three sides of the image changes a pixel"
+        );
     }
 
     // ------------------------------------------------------------------ stroke_rect
@@ -132,24 +134,24 @@ mod verif_drawing {
         in_rect(y, x, t, l, b, r) && (yi - t < w || b - 1 - yi < w || xi - l < w || r - 1 - xi < w)
     }
 
-    /// Non-inverted rect inside the image, border width not larger than either side:
+    /// Symbolic coordinate in [0, m] (an in-image rect edge of an m x m image).
+    fn any_edge_in<const M: usize>() -> i32 {
+        let v: u8 = kani::any();
+        kani::assume(v as usize <= M);
+        v as i32
+    }
+
+    /// Non-inverted rect inside the M x M image, border width not larger than either side:
     /// only pixels on the border band of that width change.
-    #[kani::proof]
-    #[kani::unwind(6)]
-    pub fn stroke_rect_in_image_band() {
-        let (old, mut img) = any_image::<N, N>();
-        let (t, l, b, r) = (
-            any_edge_in_image(),
-            any_edge_in_image(),
-            any_edge_in_image(),
-            any_edge_in_image(),
-        );
+    fn stroke_rect_band<const M: usize>() {
+        let (old, mut img) = any_image::<M, M>();
+        let (t, l, b, r) = (any_edge_in::<M>(), any_edge_in::<M>(), any_edge_in::<M>(), any_edge_in::<M>());
         let w: u8 = kani::any();
         kani::assume(t <= b && l <= r);
         kani::assume(w as i32 <= b - t && w as i32 <= r - l);
         let v: u8 = kani::any();
         stroke_rect(img.view_mut(), Rect::from_tlbr(t, l, b, r), v, w as u32);
-        let (y, x) = any_px::<N, N>();
+        let (y, x) = any_px::<M, M>();
         if changed(&old, &img, y, x) {
             assert!(
                 in_band(y, x, t, l, b, r, w as i32),
@@ -157,30 +159,37 @@ mod verif_drawing {
             );
         }
         kani::cover!(changed(&old, &img, y, x), "some pixel is changed");
-        kani::cover!(w == 2 && b - t == 4 && r - l == 4, "width 2 on the full image");
+        kani::cover!(w == 1 && b - t == M as i32 && r - l == M as i32, "width 1 on the full image");
         kani::cover!(w == 0, "zero width");
     }
 
-    /// Rect inside the image, any border width whose four edge rects stay inside the image
-    /// (so that `fill_rect` is only called with in-image rects): only pixels inside the rect
-    /// change. Separates "stroke wider than the rect / inverted rect" from fill_rect's clipping.
     #[kani::proof]
-    #[kani::unwind(6)]
-    pub fn stroke_rect_in_image_wide() {
-        let (old, mut img) = any_image::<N, N>();
-        let (t, l, b, r) = (
-            any_edge_in_image(),
-            any_edge_in_image(),
-            any_edge_in_image(),
-            any_edge_in_image(),
-        );
+    #[kani::unwind(4)]
+    pub fn stroke_rect_in_image_band_3() {
+        stroke_rect_band::<3>();
+    }
+
+    #[kani::proof]
+    #[kani::unwind(5)]
+    pub fn stroke_rect_in_image_band_4() {
+        stroke_rect_band::<4>();
+    }
+
+    /// Rect inside the M x M image (possibly inverted), any border width whose four edge rects
+    /// stay inside the image (so that `fill_rect` is only called with in-image rects): only
+    /// pixels inside the rect change. Separates "stroke wider than the rect / inverted rect"
+    /// from fill_rect's missing clipping.
+    fn stroke_rect_wide<const M: usize>() {
+        let (old, mut img) = any_image::<M, M>();
+        let (t, l, b, r) = (any_edge_in::<M>(), any_edge_in::<M>(), any_edge_in::<M>(), any_edge_in::<M>());
         let w: u8 = kani::any();
-        kani::assume(w as usize <= N);
+        kani::assume(w as usize <= M);
         let wi = w as i32;
-        kani::assume(l + wi <= N as i32 && t + wi <= N as i32 && r - wi >= 0 && b - wi >= 0);
+        let m = M as i32;
+        kani::assume(l + wi <= m && t + wi <= m && r - wi >= 0 && b - wi >= 0);
         let v: u8 = kani::any();
         stroke_rect(img.view_mut(), Rect::from_tlbr(t, l, b, r), v, w as u32);
-        let (y, x) = any_px::<N, N>();
+        let (y, x) = any_px::<M, M>();
         if changed(&old, &img, y, x) {
             assert!(in_rect(y, x, t, l, b, r), "stroke_rect changed a pixel outside the rect");
         }
@@ -189,21 +198,44 @@ mod verif_drawing {
         kani::cover!(r < l, "inverted rect");
     }
 
-    /// Any rect in the window, border width <= 5: no panic, only pixels inside image /\ rect change.
     #[kani::proof]
-    #[kani::unwind(12)]
-    pub fn stroke_rect_any_rect() {
-        let (old, mut img) = any_image::<N, N>();
-        let (t, l, b, r) = (any_coord(), any_coord(), any_coord(), any_coord());
+    #[kani::unwind(4)]
+    pub fn stroke_rect_in_image_wide_3() {
+        stroke_rect_wide::<3>();
+    }
+
+    #[kani::proof]
+    #[kani::unwind(5)]
+    pub fn stroke_rect_in_image_wide_4() {
+        stroke_rect_wide::<4>();
+    }
+
+    /// Any rect with edges in [-2, 5] (sides <= 5) around a 3 x 3 image, border width <= 2:
+    /// no panic, only pixels inside image /\ rect change.
+    #[kani::proof]
+    #[kani::unwind(7)]
+    pub fn stroke_rect_any_rect_3() {
+        let (old, mut img) = any_image::<3, 3>();
+        let c = || {
+            let v: i8 = kani::any();
+            kani::assume(v >= -2 && v <= 5);
+            v as i32
+        };
+        let (t, l, b, r) = (c(), c(), c(), c());
+        kani::assume(b - t <= 5 && r - l <= 5);
         let w: u8 = kani::any();
-        kani::assume(w <= 5);
+        kani::assume(w <= 2);
         let v: u8 = kani::any();
         stroke_rect(img.view_mut(), Rect::from_tlbr(t, l, b, r), v, w as u32);
-        let (y, x) = any_px::<N, N>();
+        let (y, x) = any_px::<3, 3>();
         if changed(&old, &img, y, x) {
             assert!(in_rect(y, x, t, l, b, r), "stroke_rect changed a pixel outside the rect");
         }
         kani::cover!(changed(&old, &img, y, x), "some pixel is changed");
+        kani::cover!(
+            t < 0 && r > 3 && w == 2 && changed(&old, &img, y, x),
+            "rect overhanging the image changes a pixel"
+        );
     }
 
     // ------------------------------------------------------------------ clamp_to_bounds / BreshamPoints
@@ -328,20 +360,17 @@ mod verif_drawing {
 
     // ------------------------------------------------------------------ draw_polygon (thin outline)
 
-    /// Polygons with 0..=3 vertices anywhere in the window, stroke width 0 or 1: no panic;
-    /// changed pixels lie inside the closed box spanned by the vertices clamped to the image.
-    #[kani::proof]
-    #[kani::unwind(6)]
-    pub fn draw_polygon_thin_clamped_box() {
+    /// Polygon outline with `n` of three symbolic vertices anywhere in the window, stroke width
+    /// 0 or 1: no panic; changed pixels lie inside the closed box spanned by the vertices
+    /// clamped to the image.
+    fn draw_polygon_frame(n: usize) -> bool {
         let (old, mut img) = any_image::<N, N>();
         let pts = [
             Point::from_yx(any_coord(), any_coord()),
             Point::from_yx(any_coord(), any_coord()),
             Point::from_yx(any_coord(), any_coord()),
         ];
-        let n: u8 = kani::any();
-        kani::assume(n <= 3);
-        let n = n as usize;
+        // Literal widths, see draw_line_thin_clamped_box.
         let width: u32 = if kani::any() { 0 } else { 1 };
         let v: u8 = kani::any();
         if width == 0 {
@@ -371,10 +400,28 @@ mod verif_drawing {
                 "draw_polygon changed a pixel outside the box of the clamped vertices"
             );
         }
-        kani::cover!(changed(&old, &img, y, x) && n == 3, "triangle changes a pixel");
+        kani::cover!(width == 0, "zero width");
+        changed(&old, &img, y, x)
+    }
+
+    /// 0, 1 or 2 vertices (2 vertices = two edges, there and back).
+    #[kani::proof]
+    #[kani::unwind(6)]
+    pub fn draw_polygon_thin_le2() {
+        let n: u8 = kani::any();
+        kani::assume(n <= 2);
+        let ch = draw_polygon_frame(n as usize);
         kani::cover!(n == 0, "empty polygon");
         kani::cover!(n == 1, "single vertex");
-        kani::cover!(width == 0, "zero width");
+        kani::cover!(n == 2 && ch, "two vertices change a pixel");
+    }
+
+    /// Triangles.
+    #[kani::proof]
+    #[kani::unwind(6)]
+    pub fn draw_polygon_thin_3() {
+        let ch = draw_polygon_frame(3);
+        kani::cover!(ch, "triangle changes a pixel");
     }
 
     // ------------------------------------------------------------------ canary
